@@ -294,7 +294,7 @@ class Run:
                 orphans.append(q0)
         self.notes["callee_contracts_verified_by_other_checks"] = deps
         self.notes["callee_contracts_verified_nowhere"] = orphans
-        for q0 in (orphans if os.environ.get("VERIF_AUDIT_CALLEES", "1") == "1" else []):
+        for q0 in (orphans if os.environ.get("VERIF_AUDIT_CALLEES", "1") == "1" and not os.environ.get("VERIF_ONLY") else []):
             self.syntactic(f"{q0}:callee-contract-is-verified-somewhere", "trust", False,
                            "the contract is applied at call sites of this check but no check verifies the function against it, and it is not marked trusted", where=q0,
                            meta={"clause": "every contract used at a call site is verified (here or under another property) or listed as trusted", "weak": True})
